@@ -21,5 +21,11 @@ TRUSTED = ["Python names genname(munge(x)) are modelled as structured pairs (col
            "basilisp's analyzer and the runtime helpers called by generated code (vector, the tracing fn) are primitives of the model"]
 ASSUMPTIONS = ["proof covers the first-order core (const, local, if, do, let*, calls); fn/closures, loop/recur, "
                "try/throw, def are covered by the correspondence run only"]
-FINDINGS = {}
+FINDINGS = {
+    "F-01a": lambda c, o, tag: bool(tag & 2),     # closure over a loop-bound local
+    "F-01c": lambda c, o, tag: bool(tag & 4),     # munge collision involving a fn parameter
+    "F-01d": lambda c, o, tag: bool(tag & 8),     # closure over a catch local
+    "F-02": lambda c, o, tag: bool(tag & 1),      # hoisting can change which exception/value results
+    "F-02c": lambda c, o, tag: bool(tag & 16),
+}
 cases = _c.cases
